@@ -10,7 +10,8 @@
      rx_sess.recv()        SessionNegotiated | UpdateMessage | NotificationMessage |
                            ConnectionLost | None (all senders dropped)
      self.gate.process()   Err(Terminated) | Reconfiguring (main config changed | nothing
-                           changed | this peer's config changed | this peer removed)
+                           changed | this peer's config changed | this peer removed |
+                           only other peers' entries changed)
    After the loop (`// Done, for whatever reason`): unless the connection was rejected
    early, and if session.negotiated() is Some, the (address, AS) key leaves live_sessions and
    Update::Withdraw(session ingress id, None) is sent.
@@ -22,7 +23,8 @@ From stdpp Require Import gmap.
 From Coq Require Import NArith.
 From RV Require Import Rib.RibModel Bmp.BmpModel.
 
-Inductive bs_reconf := BRUnit | BRSame | BRPeer | BRGone.
+Inductive bs_reconf := BRUnit | BRSame | BRPeer | BRGone
+| BROthers.   (* main settings and this peer's entry unchanged, other peers' entries changed / added / removed *)
 
 Inductive bs_ev :=
 | BTick                          (* tick() = Ok(()) *)
@@ -81,7 +83,13 @@ Definition bs_step (id key : N) (s : bs_st) (e : bs_ev) : bs_st * bool :=
   | BReconf BRSame => (s, true)
   | BReconf BRPeer => (bs_command s BCReconfiguration, true)
   | BReconf BRGone => (bs_command s BCDeconfigured, false)
+  | BReconf BROthers => (s, true)                  (* BgpTcpIn's PartialEq compares listen, my_asn, my_bgp_id only;
+                                                      then this peer's own entry is looked at: unchanged, "noop" *)
   end.
+
+(* reconfigurations that concern neither the unit's main settings nor this peer *)
+Definition bs_spared (e : bs_ev) : bool :=
+  match e with BReconf BRSame | BReconf BROthers => true | _ => false end.
 
 (* the loop: state when it is left, and the events it did not get to. A script that
    runs out stands for a session channel that is closed then (`None => break`). *)
